@@ -43,7 +43,7 @@ def gen_cases(tier, seed):
         dev = zoo.gen_device(rng, n_terminals=nt, n_holes=int(nt == 0), probes=2 if nt else 0, size="tiny" if scr else "small", smooth=0)
         if scr:
             dev["layer"]["lam"], dev["layer"]["d"] = 2.0, 0.1
-        if k % 2 == 1:
+        if k % 2 == 1 or k % 4 == 2:
             dev["layer"]["z0"] = -0.3 * dev["film"].get("w", 4.0)  # film away from the plane z = 0 (a length like any other)
         o = S.base_options(rng, adaptive=bool(k % 2), steps=30 if scr else 100, screening=scr)
         o["dt_max"] = 0.02
@@ -237,6 +237,34 @@ def _l2(spec):
         W["vector_potential_at_position"] = r / gate
         if r > gate:
             V.append({"kind": "physical_vector_potential_depends_on_units", "mechanism": "physical_output_depends_on_units", "detail": {"rel": r, "units": [ua, ub]}})
+        # interpolated current density at fixed physical points: asked in the solution's own units first, then in A / m
+        # (the answer to the second question does not depend on the first having been asked)
+        pts_a = np.asarray(sa.device.points) / LSC[ua[0]]
+        Q_um = pts_a[:: max(1, len(pts_a) // 7)][:7] * 0.999
+        C["physical_output_checks"] += 1
+        try:
+            ja0 = np.asarray(sa.interp_current_density(Q_um * LSC[ua[0]], with_units=False))
+            jb0 = np.asarray(sb.interp_current_density(Q_um * LSC[ub[0]], with_units=False))
+            ja = np.asarray(sa.interp_current_density(Q_um * LSC[ua[0]], units="A / m", with_units=False))
+            jb = np.asarray(sb.interp_current_density(Q_um * LSC[ub[0]], units="A / m", with_units=False))
+            rj = float(np.nanmax(np.abs(ja - jb))) / max(float(np.nanmax(np.abs(ja))), 1e-300)
+            if rj > gate:
+                V.append({"kind": "physical_current_density_depends_on_units", "mechanism": "physical_output_depends_on_units", "detail": {"rel": rj, "units": [ua, ub], "what": "interp_current_density after a default-units call"}})
+        except Exception as exc_:  # noqa: BLE001
+            C["interp_current_density_raised"] = C.get("interp_current_density_raised", 0) + 1
+        # voltage between two user-chosen probe positions (given in the solution's length units), re-extracted from the file
+        try:
+            from tdgl.solution.data import DynamicsData
+
+            pp_um = np.array([pts_a[np.argmin(pts_a[:, 0])], pts_a[np.argmax(pts_a[:, 0])]]) * 0.9
+            da = DynamicsData.from_solution(sa.path, probe_points=pp_um * LSC[ua[0]])
+            db = DynamicsData.from_solution(sb.path, probe_points=pp_um * LSC[ub[0]])
+            C["physical_output_checks"] += 1
+            va, vb = np.asarray(da.mu), np.asarray(db.mu)
+            if va.shape != vb.shape or float(np.max(np.abs((va[0] - va[1]) - (vb[0] - vb[1])))) > gate * max(float(np.max(np.abs(va[0] - va[1]))), 1e-6):
+                V.append({"kind": "probe_voltage_depends_on_units", "mechanism": "physical_output_depends_on_units", "detail": {"units": [ua, ub], "what": "DynamicsData.from_solution with user-supplied probe points"}})
+        except Exception as exc_:  # noqa: BLE001
+            C["dynamics_from_solution_raised"] = C.get("dynamics_from_solution_raised", 0) + 1
         Ka0 = np.array(sa.current_density.to("A / m").magnitude, copy=True)
         Kb0 = np.array(sb.current_density.to("A / m").magnitude, copy=True)
         Ba = np.asarray(sa.field_at_position(P_um * LSC[ua[0]], units="T", with_units=False))
